@@ -5,7 +5,93 @@ HERE = os.path.dirname(os.path.abspath(__file__))
 props = [json.loads(l) for l in open(os.path.join(HERE, "properties.jsonl"))]
 ids = [p["id"] for p in props]
 
+def P(text, note, tech, ref, category="proof"):
+    return dict(category=category, text=text, note=note, technique=tech, design_ref=ref)
+
+LEAN_TB = ("Trusted: Lean 4.33 kernel, axioms propext/Classical.choice/Quot.sound only (audited by #print axioms on every run; no sorry/native_decide), "
+           "Lean evaluator for the model drivers, the Python harness and NumPy/SciPy as dense oracle. ")
+
 CHECKS = {
+ "C01": P("Lean: every symbolic MPO certificate whose expansion equals the operator table evaluates, as a weighted automaton, to the value of the table for every linear "
+          "representation (automaton_eq_expand, checkCert_sound), swap certificates (checkSwap_sound), formal-sum equivalence (eqv_sound). The checker runs on the REAL "
+          "symbolic_out_ops_list of Mpo() for all three algorithms (exact for graph algorithms, residual for QR), on the operator table vs an independently computed formal sum of "
+          "the input terms, and after random try_swap_site sequences. Dense Kronecker-sum oracle as failing-input search.",
+          LEAN_TB + "Numeric assembly (op_mat, float products) and the identification MPO contraction = automaton with T(O)=O(x)opmat are validated by the oracle, not proved.",
+          "Lean 4 proof of a sound certificate checker + automaton semantics; certificates validated on real output", "§6 C01, §10.2"),
+ "C02": P("Lean: soundness of the tree certificate checker (root expansion = table for every interpretation), bilinear child combination. Certificates extracted from the real "
+          "symbolic_ttno for random trees (dummy / multi-set nodes, all builders' shapes) and three algorithms are validated against an independent post-order table. Dense oracle "
+          "TTNO.todense vs Kronecker sum vs chain MPO vs permuted children.",
+          LEAN_TB + "Multilinear contraction semantics of a tree and numeric node tensors are validated by the oracle. tn imports only with the print_tree shim.",
+          "Lean 4 proof of a sound tree-certificate checker; certificates validated on real output", "§6 C02, §10.2"),
+ "C03": P("Lean: dense amplitudes of add / sub / scale / conj / dot / inner / apply for dimension-indexed chains over any commutative ring, any length and dimensions; amplitudes are "
+          "invariant under every re-gauging (Steps), so the statements hold in any gauge and after canonicalise/compress. Exact replay: integer QN-consistent chains with different "
+          "centres through the real operations and through the Lean definitions give identical tensors. Dense oracle over random gauge histories.",
+          LEAN_TB + "Operator-on-operator and density-operator products are covered by the dense oracle only.",
+          "Lean 4 proof (Mathlib matrices, structural induction over chains) + exact replay correspondence", "§6 C03, §10.2"),
+ "C04": P("Lean: any finite sequence of two-site re-factorisations preserves every amplitude; QR/RQ pushes, lossless SVD updates and operator norm balancing are such steps under the "
+          "kernel contract; isometric blocks have identity Gram matrix; sweep bond-dimension bounds. The contracts are checked on every real _update_ms call; sweep dimensions are replayed "
+          "exactly. Dense oracle for object preservation, isometries, bond growth, partial canonicalise, variational compression.",
+          LEAN_TB + "LAPACK QR/SVD are parameters (contracts checked numerically). Variational-compression convergence is numerical. Open findings: Mpo.compress is not a Schmidt truncation; "
+          "variational compression can stall (see known_findings.json).",
+          "Lean 4 proof under kernel contracts + contract checks on recorded kernel calls", "§6 C04, §10.2"),
+ "C05": P("Lean: kept-count logic of CompressConfig (threshold/fixed/both, left/right bond index), prefix property of the threshold rule, at least one state kept, kept+discarded=total, "
+          "Frobenius identity for U D V^H (single-cut error = discarded weight, norm never grows). Exact replay of compute_m_trunc on dyadic spectra. Dense-SVD oracle for limits, norm, "
+          "root-sum-square upper bound and Eckart-Young lower bound on chains and trees.",
+          LEAN_TB + "Multi-bond error bounds are measured, not proved (partial).",
+          "Lean 4 proof of the count logic and single-cut identity + exact replay", "§6 C05, §10.2"),
+ "C06": P("Lean: block-sparsity invariant => zero amplitude outside the sector (any label group, any length); preserved by add / scale / conj / apply (sector shifted by the operator's "
+          "charge) / label-respecting re-factorisation / masking; soundness of the executable checker checkInv. The checker is run on the support pattern and stored labels of the REAL tensors "
+          "after every operation; move_qnidx replayed exactly. Dense sector-projection oracle over all constructors, DMRG, all evolution schemes, chains and trees.",
+          LEAN_TB + "support = |x| > 1e-10 max|A|. Open findings: Mps.random / TTNS.random dead-end blocks.",
+          "Lean 4 proof of the sector theorem and its preservation + certificate validation on real tensors", "§6 C06, §10.2"),
+ "C07": P("Lean: the cached-environment fast path: the cache is prefix closed in construction order for EVERY operator list (no KeyError), every cached environment is the plain contraction of "
+          "its key, the handed-out prefix never overlaps the other side. Every cache decision of the real expectations() is replayed exactly. Dense oracle for all observables, RDMs, entropies.",
+          LEAN_TB + "Matrix.__hash__ assumed injective on the inputs. Entropies are float formulas (partial). Contraction = dense value is c03_dot.",
+          "Lean 4 proof of the cache logic for all operator lists + exact replay of cache decisions", "§6 C07, §10.2"),
+ "C08": P("Partial: the variational inequality (compression never lowers the spectrum; nested; Rayleigh form; (H-w)^2 >= 0) is a Lean theorem under the isometry hypothesis, which is checked on the "
+          "real optimiser's output together with energy = Rayleigh quotient. Energies vs exact diagonalisation per sector, roots 1..4, omega targeting, 1-/2-site, solvers, OFS: dense oracle.",
+          LEAN_TB + "Convergence at full bond dimension, interlacing for higher roots, Davidson: numerical.",
+          "Lean 4 partial proof (variational bound) + hypothesis check + dense-oracle search", "§6 C08, §10.2", "other"),
+ "C09": P("Partial: one explicit RK step = polynomial in the generator for every tableau and every linear generator (rk_step_poly) with coefficients 1/k! up to the advertised order (generated facts); "
+          "adaptive controller model. The real general RK scheme at full bond dimension equals the model polynomial (1e-15) for all ten tableaux. Orders by slopes, solver independence, "
+          "split calls, PS conservation, bond limits: dense oracle.",
+          LEAN_TB + "Error orders and solver convergence are numerical.",
+          "Lean 4 partial proof (RK polynomial, translator-generated facts) + correspondence + dense-oracle search", "§6 C09, §10.2", "other"),
+ "C10": P("Partial: closed-form propagator = product of local factors, scalar shift, phase bookkeeping of evolve_exact (with the D3 witness) are Lean theorems tied to the real exact_propagator; "
+          "exp(-tau H) and Gibbs averages for all schemes/sectors/offsets: dense oracle.",
+          LEAN_TB + "Imaginary-time convergence is numerical.",
+          "Lean 4 partial proof (propagator structure, bookkeeping) + correspondence + dense-oracle search", "§6 C10, §10.2", "other"),
+ "C11": P("Partial: state-sum model of a tensor network on any graph (scale, linearity in a node, node relabelling = child-order independence, bond permutation gauge) proved in Lean and replayed on "
+          "real TTNS objects; add/apply/canonicalise/compress/expectation/RDM/entropies/from_mps: dense oracle.",
+          LEAN_TB + "tn imports only with the print_tree shim.",
+          "Lean 4 partial proof (state-sum model) + correspondence + dense-oracle search", "§6 C11, §10.2", "other"),
+ "C12": P("Partial: traversal bookkeeping of the two-site projector-splitting sweep (one two-site step per edge, every rooted tree) + C09's RK skeleton; step counts of the real tdvp_ps2 replayed; "
+          "dense propagator oracle for all four schemes in real and imaginary time, sector, conservation, chain agreement.",
+          LEAN_TB + "Orders and conservation laws are numerical. Open findings listed in known_findings.json.",
+          "Lean 4 partial proof (traversal, RK skeleton) + correspondence + dense-oracle search", "§6 C12, §10.2", "other"),
+ "C13": P("Lean effect model (derive / mutate / observe): well-formedness invariant, frame theorems, no_interference over every finite program. Random programs on real chain objects: every other live "
+          "object's represented vector unchanged, no shared mutable containers. Snapshot search over all public methods, all schemes, MpDm, trees, zero/non-zero offsets.",
+          LEAN_TB + "Sharing of immutable NumPy buffers is allowed. Documented exemptions: OFS reorders the Hamiltonian; the optimiser overwrites its guess.",
+          "Lean 4 proof over an effect model + observed-effect correspondence", "§6 C13, §10.2"),
+ "C15": P("Lean: the symbolic operator algebra is a homomorphism into ANY algebra under ANY interpretation of the simple symbols: product, scalar multiple, negation, sum, difference, "
+          "distributive product of sums, quotient, identity removal, merging of equal terms, simplification split into kept and dropped part, and den_eval for every expression program. "
+          "Random expression programs are evaluated by the real Op/OpSum classes and by the Lean evalModel over exact Gaussian rationals; term lists identical. Dense shadow-matrix oracle, "
+          "equality/hash consistency, split_elementary.",
+          LEAN_TB + "Factors are dyadic so that float arithmetic is exact; DoF names abstracted to integers.",
+          "Lean 4 proof (homomorphism for all expression programs) + exact replay correspondence", "§6 C15, §10.2"),
+ "C16": P("Lean: harmonic-oscillator symbols in the scaled number basis for every size / frequency parameter / origin: two-operator products, CCR, x^2, p^2, x p, p x in the written order. Real "
+          "BasisSHO.op_mat replayed against the model with the similarity scaling. Defining relations of every basis class, sine-DVR quadrature, builders vs independent dense Hamiltonians: dense oracle.",
+          LEAN_TB + "General powers, DVR, sine-DVR integrals, spin/electron tables, builders, Quantity: oracle only (partial). Open finding: BasisMultiElectronVac 'a a^dagger'.",
+          "Lean 4 proof (SHO algebra over Gaussian rationals) + scaled replay", "§6 C16, §10.2"),
+ "C17": P("Lean: simplify_op is exact on every word over {sigma_z, sigma_+, sigma_-} of any length; the Jordan-Wigner swap rule is the fermionic swap conjugation on the whole admitted alphabet. Real "
+          "simplify_op and table_row_swapped_jw replayed. qc_model vs independent fermionic matrix, hermiticity, number conservation, OFS swap sequences: dense oracle.",
+          LEAN_TB + "jw_equals_fock for all orbital counts is not proved (oracle for 1-4 spatial orbitals).",
+          "Lean 4 proof (word normal form, exhaustive swap table) + exact replay", "§6 C17, §10.2"),
+ "C18": P("Lean: assembly of the symmetry-blocked factorisation for every label pattern (reconstruction of the allowed part, cross-sector orthogonality, labels, sort permutation, invalid-qn iff no "
+          "sector pairs), kernels as parameters; hypotheses and conclusion checked on real svd_qn output. Krylov exponential vs scipy expm: numerical contract (partial).",
+          LEAN_TB + "LAPACK kernels and Lanczos are not modelled.",
+          "Lean 4 proof of the blocked assembly under kernel contracts + contract checks", "§6 C18, §10.2"),
+
  "C19": dict(
    category="proof",
    text="The Lean model of the ten tableaux is regenerated from rk.py on every run (translator, runtime values -> exact rationals, ast cross-check); "
